@@ -49,9 +49,11 @@ enum Op {
     World,
     WorldMut,
     Setup,
+    /// the common idiom `while d.running() { .. }`: completion is first seen by running()
+    PollUntilDone,
 }
 
-const OPS: [Op; 12] = [Op::Dispatch, Op::Dispatch, Op::Dispatch, Op::DispatchHeld, Op::DispatchHeld, Op::Running, Op::Running, Op::Wait, Op::WaitNoTl, Op::World, Op::WorldMut, Op::Setup];
+const OPS: [Op; 14] = [Op::Dispatch, Op::Dispatch, Op::Dispatch, Op::DispatchHeld, Op::DispatchHeld, Op::Running, Op::Running, Op::Wait, Op::WaitNoTl, Op::World, Op::WorldMut, Op::Setup, Op::PollUntilDone, Op::PollUntilDone];
 const BLOCKING: [Op; 6] = [Op::Wait, Op::WaitNoTl, Op::World, Op::WorldMut, Op::Setup, Op::Dispatch];
 
 const PROFILES: [Profile; 5] = [Profile::Tiny, Profile::Dense, Profile::Mixed, Profile::Batchy, Profile::SparseWide];
@@ -140,6 +142,7 @@ fn case(rng: &mut Rng, pools: &mut Pools, rep: &mut Report, case_no: u64) {
             let _ = ad.world_mut();
         }
         Op::Setup => ad.setup(),
+        Op::PollUntilDone => {}
     };
 
     for _ in 0..hist_len {
@@ -233,6 +236,31 @@ fn case(rng: &mut Rng, pools: &mut Pools, rep: &mut Report, case_no: u64) {
                     }
                 }
             }
+            Op::PollUntilDone => {
+                // bounded: a dispatcher that never reports completion is reported, not waited for
+                let deadline = Instant::now() + Duration::from_secs(8);
+                let mut polls = 0u32;
+                let mut done = false;
+                while Instant::now() < deadline {
+                    polls += 1;
+                    if !ad.running() {
+                        done = true;
+                        break;
+                    }
+                    running_true_seen += 1;
+                    std::thread::yield_now();
+                }
+                history.push(format!("while running() {{}} ({} polls)", polls));
+                if !done {
+                    problems.push(("running_never_false".into(), format!("running() kept returning true for 8 s after {} dispatches (history {:?})", dispatched, history)));
+                } else {
+                    let fin = ctx.finished.load(SeqCst);
+                    let act = ctx.active.load(SeqCst);
+                    if fin != dispatched * per || act != 0 {
+                        problems.push(("running_false_too_early".into(), format!("running() returned false with {} of {} completions and {} active (history {:?})", fin, dispatched * per, act, history)));
+                    }
+                }
+            }
             Op::Wait => {
                 do_op(op, &mut ad, &ctx);
                 waits += 1;
@@ -263,7 +291,7 @@ fn case(rng: &mut Rng, pools: &mut Pools, rep: &mut Report, case_no: u64) {
     // ---- ordinary systems: every dispatch epoch exactly once, epochs never overtake ----
     if problems.is_empty() && dispatched > 0 {
         let mut f = Vec::new();
-        let opts = EOpts { expect_tl: false, caller_thread: caller, outer_mode: "async", top_mult: dispatched as usize };
+        let opts = EOpts { expect_tl: false, caller_thread: caller, outer_mode: "async", top_mult: dispatched as usize , partial: false};
         let st = e_oracle(&strip_tl(&plan), &evs, &opts, &mut f);
         rep.metric("windows", st.windows as i64);
         for x in f {
